@@ -5,17 +5,17 @@ Theorems are over every event sequence of the commit-loop LTS (`Model/Commit.lea
 CommitMessages calls, generation begin/end, ticks, coordinator answers to OffsetCommit incl. failures and retries,
 reader close during a retry), and over every OffsetFetch answer for the start offsets (`Model/GroupStart.lean`).
 
-Partial aspects (kept visible):
-* `sync_commit_recorded_partial` is the state-level core (a positive answer to a synchronous CommitMessages is only
-  produced after an acknowledged OffsetCommit of a stash that dominates the request); the history-level statement
-  "issued after the call began" is checked on every recorded trace by the oracle monitor `sync-commit-not-recorded`,
-  not proved here.
-* the group-level corollaries (`delivered_before_covered`, `quiescent_all_delivered`) need C02's iterated-fetch
-  theorem and an abstract multi-member history; they are not stated in this file (see docs/notes/C03.md).
+Group level (section "group history" at the end): an abstract multi-member history of one partition
+(`Model/Group.lean`) whose steps are justified by the component theorems — `assign` by `start_at_committed`,
+`commit` by `commit_le_handed` + the stated hypothesis that applications commit only what they were handed, `deliver`
+by C02's iterated-fetch contract (taken as a HYPOTHESIS: it is the definition of the step).  Hypotheses of
+`delivered_before_covered` / `quiescent_all_delivered`: StartOffset = FirstOffset and no truncation of the log
+(`last_offset_counterexample` shows why), contiguous stored offsets.
 -/
-import KafkaVerif.Lemmas.Commit
+import KafkaVerif.Lemmas.CommitSync
 import KafkaVerif.Model.GroupStart
 import KafkaVerif.Gen.GroupFacts
+import KafkaVerif.Lemmas.Group
 
 namespace KV.Commit.C03
 open KV.Commit
@@ -87,11 +87,35 @@ theorem merge_sound (s : Stash) (cs : List Commit) (e : TP × Int) (h : e ∈ s.
 
 theorem makeCommit_offset (m : TP × Int) : (makeCommit m).offset = m.2 + 1 ∧ (makeCommit m).tp = m.1 := ⟨rfl, rfl⟩
 
-/-! ### sync_commit_recorded (state-level core) -/
+/-! ### sync_commit_recorded -/
 
-/-- A positive answer is only given from a `done … true` state, and that state is only entered by an acknowledged
-OffsetCommit attempt carrying the whole stash — or with an empty stash (nothing to commit). -/
-theorem sync_commit_recorded_partial (s s' : CState) (offs : Stash)
+/-- History level: whenever the commit loop has answered a synchronous CommitMessages request `r` with nil
+(`(r, true) ∈ replied` — the only way `CommitMessages` returns nil in sync mode), then for every commit of the request
+there is an *acknowledged* OffsetCommit request in the history, issued after the call began (`sentAtCall ≤ i`: at
+least as many requests were issued before it as at the moment of the call), carrying for that partition an offset
+≥ the commit's offset. -/
+theorem sync_commit_recorded (s : CState) (h : CReachable s) (r : Req) (hr : (r, true) ∈ s.replied) :
+    ∀ c ∈ r.commits, ∃ i offs, s.sent[i]? = some (offs, true) ∧ r.sentAtCall ≤ i ∧
+      ∃ o, (c.tp, o) ∈ offs ∧ c.offset ≤ o :=
+  (sinv_reachable s h).recr (r, true) hr rfl
+
+/-- in terms of the messages: requests are built by `makeCommit`, so the recorded offset is ≥ m.Offset + 1 -/
+theorem sync_commit_recorded_msgs (s : CState) (h : CReachable s) (r : Req) (hr : (r, true) ∈ s.replied)
+    (m : TP × Int) (hm : makeCommit m ∈ r.commits) :
+    ∃ i offs, s.sent[i]? = some (offs, true) ∧ r.sentAtCall ≤ i ∧ ∃ o, (m.1, o) ∈ offs ∧ m.2 + 1 ≤ o :=
+  sync_commit_recorded s h r hr (makeCommit m) hm
+
+/-- the stash is a map: its keys stay unique under every event sequence -/
+theorem stash_keys_unique (s : CState) (h : CReachable s) : Uniq s.stash := (sinv_reachable s h).uniq
+
+/-- non-vacuity: in `sample` both requests were answered nil, and e.g. request 1 (called after one request had been
+issued) is recorded by the third request -/
+example : (crun {} sample).map (fun s => (s.replied.map (fun x => (x.1.id, x.1.sentAtCall, x.2)), s.sent.map (·.2)))
+    = some ([(0, 0, true), (1, 1, true)], [false, true, true]) := by decide
+
+/-- State-level step lemma: a successful attempt carries the whole stash, is appended to the history as acknowledged and
+leads to the answering state. -/
+theorem acked_attempt_enters_done (s s' : CState) (offs : Stash)
     (h : cstep s (.attempt offs true) = some s') :
     (∃ rs' f, s'.pc = .done rs' true f) ∧ s'.sent = s.sent ++ [(offs, true)] ∧ sameMap offs s.stash = true := by
   have f := settle_fields s
@@ -144,5 +168,62 @@ theorem assignments_cover (start : Int) (topics : List String) (subs : List (Str
 open KV.GroupStart in
 example : makeAssignments (-1) ["t", "u"] [("t", [0, 2]), ("u", [1])] [("t", [(0, 5), (2, -1)])]
     = [("t", [(0, 5), (2, -1)]), ("u", [(1, -1)])] := by decide
+
+/-! ## group history -/
+section GroupHistory
+open KV.GroupHist
+
+/-- `assign` starts the epoch at the committed offset, or at the configured StartOffset when there is none
+(the group-level image of `start_at_committed`) -/
+theorem assignment_starts_at_committed (sl : Bool) (s s' : G) (m : Nat) (h : gstep sl s (.assign m) = some s') :
+    ∃ rd, s'.readers = s.readers ++ [rd] ∧ rd.m = m ∧ rd.pos = rd.start ∧
+      rd.start = (match s.committed with | some c => c | none => if sl then s.hi else 0) := by
+  simp only [gstep] at h
+  cases h
+  exact ⟨_, rfl, rfl, rfl, rfl⟩
+
+/-- Each time the partition is assigned, delivery proceeds from the start position without gaps and in order: in every
+reachable state every epoch has delivered exactly `start, start+1, …, pos-1` (to its member).
+(For any StartOffset; any interleaving with other members' epochs, commits, revocations.) -/
+theorem no_gap_per_assignment (sl : Bool) (s : G) (h : GReachable sl s) :
+    ∀ rd ∈ s.readers, rd.start ≤ rd.pos ∧ rd.epoch = List.range' rd.start (rd.pos - rd.start) ∧
+      ∀ r ∈ rd.epoch, (rd.m, r) ∈ s.delivered := by
+  intro rd hrd
+  have n := nogap_reachable sl s h
+  exact ⟨(n.shape rd hrd).1, (n.shape rd hrd).2, n.mine rd hrd⟩
+
+/-- Every stored record below an acknowledged commit was delivered to some member before — in every reachable state,
+hence in particular in the state right after the acknowledgement.  Hypotheses: StartOffset = FirstOffset (`false`),
+applications commit only what they were handed (guard of `commit`), gap-free delivery per epoch (`deliver`). -/
+theorem delivered_before_covered (s : G) (h : GReachable false s) (c : Nat) (hc : s.committed = some c) :
+    ∀ r, r < c → ∃ m, (m, r) ∈ s.delivered :=
+  (ginv_reachable s h).cov c hc
+
+/-- Once some member has caught up with the end of the log (the group is quiescent: nothing left to deliver for it),
+every stored record has been delivered at least once. -/
+theorem quiescent_all_delivered (s : G) (h : GReachable false s) (rd : Reader) (hrd : rd ∈ s.readers)
+    (hq : s.hi ≤ rd.pos) : ∀ r, r < s.hi → ∃ m, (m, r) ∈ s.delivered :=
+  fun r hr => (ginv_reachable s h).below rd hrd r (by omega)
+
+/-- non-vacuity: two members; member 1 is rebalanced away without having committed everything, keeps reading as a
+zombie, member 2 resumes at the commit (re-delivering 1), a stale commit of member 1 moves the offset backwards -/
+def twoMembers : List GEv :=
+  [.produce, .produce, .produce, .produce, .assign 1, .deliver 0, .deliver 0, .commit 1 1 true,
+   .assign 2, .deliver 1, .deliver 0, .deliver 1, .commit 2 3 true, .commit 1 2 true, .revoke 0, .deliver 0]
+
+example : (grun false {} twoMembers).map (fun s => (s.committed, s.delivered, s.readers.map (fun r => (r.m, r.start, r.pos))))
+    = some (some 2, [(1, 0), (1, 1), (2, 1), (1, 2), (2, 2), (2, 3)], [(2, 1, 4)]) := by decide
+
+/-- With StartOffset = LastOffset the group-level consequence is false by design: records stored before the first
+member started are never delivered although a later acknowledged commit covers them. -/
+theorem last_offset_counterexample :
+    (grun true {} [.produce, .produce, .produce, .assign 1, .produce, .deliver 0, .commit 1 4 true]).map
+      (fun s => (s.committed, s.delivered)) = some (some 4, [(1, 3)]) := by decide
+
+/-- without the hypothesis "applications commit only what they were handed" there is no such theorem: a commit beyond
+the delivered records is simply not a step of the model -/
+example : grun false {} [.produce, .produce, .assign 1, .deliver 0, .commit 1 2 true] = none := by decide
+
+end GroupHistory
 
 end KV.Commit.C03
